@@ -63,9 +63,63 @@ def cases(tier, seed):
             out.append({'kind': 'seeds', 'seed': case_seed('C14', seed, 'seeds', D, P, k), 'params': {'D': D, 'P': P, 'which': k}})
         for k in range(3):
             out.append({'kind': 'subclass', 'seed': case_seed('C14', seed, 'subclass', D, P, k), 'params': {'D': D, 'P': P, 'which': k}})
+        for lay in gen.LAYOUTS + ['transposed-view', 'slice-of-larger']:
+            out.append({'kind': 'layouts', 'seed': case_seed('C14', seed, 'layouts', D, P, lay), 'params': {'D': D, 'P': P, 'layout': lay}})
         for k in range(2):
             out.append({'kind': 'floordiv', 'seed': case_seed('C14', seed, 'floordiv', D, P, k), 'params': {'D': D, 'P': P}})
     return out
+
+
+MATRIX_FUNCS = ['det', 'logdet', 'lu2', 'lu', 'inv', 'qr', 'qr_full', 'cholesky', 'eigh', 'eigh1', 'svd', 'eig', 'expm', 'trace', 'diag', 'symvec', 'transpose',
+                'solve_self_rhs', 'solve_as_rhs', 'dot_self', 'dot_left', 'dot_right', 'outer_rows', 'sum', 'prod', 'exp', 'sqrt', 'sin', 'tan', 'reciprocal', 'square', 'tril', 'triu']
+
+
+def _layouts(ctx, p, rng):
+    """every matrix function on one operand in a given memory layout (Fortran order, transposed view of the caller's object, slice of
+    a larger array of the caller, strided, reversed, unaligned): the operand, the caller's object it is a view of and the bytes
+    around it are unchanged afterwards, and a second evaluation returns the same coefficients.  (LAPACK wrappers with overwrite_*
+    options work in place exactly when the slice they get is Fortran-contiguous.)"""
+    D, P, lay = p['D'], p['P'], p['layout']
+    n = 3
+    base = 0.3 * rng.normal(size=(D, P, n, n))
+    base[0] = 0.5 * base[0] + 0.5 * np.swapaxes(base[0], -1, -2) + 2.0 * np.eye(n)          # symmetric positive definite base, distinct eigenvalues
+    base[0] += np.diag([0.0, 0.7, 1.9])
+    if lay == 'transposed-view':
+        owner = UTPM(np.swapaxes(base, -1, -2).copy())
+        x = owner.T
+        parent = owner.data
+    elif lay == 'slice-of-larger':
+        parent = rng.normal(size=(D, P, n + 2, n + 2))
+        parent[:, :, 1:n + 1, 1:n + 1] = base
+        x = UTPM(parent)[1:n + 1, 1:n + 1]
+    else:
+        arr = gen.relayout(base, lay)
+        parent = arr.base if arr.base is not None else arr
+        x = UTPM(arr)
+    if not np.array_equal(x.data, base):
+        ctx.monitor_error('layouts', RuntimeError('operand construction: %s' % lay)); return
+    keep_parent = np.array(parent, copy=True)
+    for name in MATRIX_FUNCS:
+        f = {'solve_self_rhs': lambda a: UTPM.solve(a, a), 'solve_as_rhs': lambda a: UTPM.solve(UTPM(base.copy()), a), 'dot_self': lambda a: UTPM.dot(a, a),
+             'dot_left': lambda a: UTPM.dot(a, UTPM(base.copy())), 'dot_right': lambda a: UTPM.dot(UTPM(base.copy()), a), 'outer_rows': lambda a: UTPM.outer(a[0], a[1]),
+             'sum': lambda a: UTPM.sum(a, axis=0), 'prod': lambda a: UTPM.prod(a[0]), 'tril': lambda a: algopy.tril(a), 'triu': lambda a: algopy.triu(a),
+             'transpose': lambda a: a.T.copy(), 'expm': lambda a: algopy.expm(a)}.get(name) or (lambda a, _g=getattr(UTPM, name, None) or getattr(algopy, name): _g(a))
+        try:
+            r1 = f(x)
+            first = [np.array(v.data, copy=True) for v in (r1 if isinstance(r1, (tuple, list)) else (r1,)) if isinstance(v, UTPM)]
+            changed = not (np.array_equal(x.data, base) and np.array_equal(parent, keep_parent))
+            r2 = f(x)
+            second = [np.array(v.data, copy=True) for v in (r2 if isinstance(r2, (tuple, list)) else (r2,)) if isinstance(v, UTPM)]
+        except Exception as e:
+            if not (np.array_equal(x.data, base) and np.array_equal(parent, keep_parent)):
+                ctx.violation('layouts:%s:operand-modified' % name, {'function': name, 'layout': lay, 'D': D, 'P': P, 'raised': repr(e)[:120]}); return
+            ctx.skip('unsupported:layouts:%s' % name); continue
+        if changed or not (np.array_equal(x.data, base) and np.array_equal(parent, keep_parent)):
+            ctx.violation('layouts:%s:operand-modified' % name, {'function': name, 'layout': lay, 'D': D, 'P': P,
+                          'max_change': float(np.max(np.abs(x.data - base)))}); return
+        if len(first) != len(second) or not all(a.shape == b.shape and np.array_equal(a, b, equal_nan=True) for a, b in zip(first, second)):
+            ctx.violation('layouts:%s:second-evaluation-differs' % name, {'function': name, 'layout': lay, 'D': D, 'P': P}); return
+        ctx.ok('layouts:' + name, ('layouts', name, lay, D, P))
 
 
 def _floordiv(ctx, p, rng):
@@ -271,6 +325,8 @@ def run_case(ctx, case):
             return pool.run_ambient(ctx, PID) if case['kind'] == 'ambient' else pool.run_ambient_docs(ctx, PID)
         finally:
             probe.S.suppress = False
+    if case['kind'] == 'layouts':
+        return _layouts(ctx, case['params'], gen.rng_of(case))
     if case['kind'] == 'floordiv':
         return _floordiv(ctx, case['params'], gen.rng_of(case))
     if case['kind'] == 'iouter':
